@@ -113,6 +113,17 @@ theorem sim_send (s s' : St) (id : Nat) (c : Scan) (bl : Bool) (dropped : Nat) (
   all_goals (try subst hs)
   all_goals (refine ⟨h1, h2, by simp [h3], h4, h5, h6, h7, h8, h9, h10, h11, h12⟩)
 
+theorem sim_endUnsampled (s s' : St) (id : Nat) (c : Scan) (bl : Bool) (dropped : Nat) (h : Sim s c)
+    (hs : step s (.endUnsampled id) = some s') :
+    Sim s' ((emitRaw s (.endUnsampled id)).foldl (scanStep bl dropped) c) := by
+  obtain ⟨h1, h2, h3, h4, h5, h6, h7, h8, h9, h10, h11, h12⟩ := h
+  simp only [emitRaw, List.foldl_cons, List.foldl_nil, scanStep]
+  simp only [step] at hs
+  split at hs
+  · simp at hs
+  · simp at hs; subst hs
+    exact ⟨h1, h2, h3, h4, h5, h6, h7, h8, h9, h10, h11, h12⟩
+
 theorem sim_wExportStart (s s' : St) (c : Scan) (bl : Bool) (dropped : Nat) (hC : InvC s) (h : Sim s c)
     (hs : step s .wExportStart = some s') :
     Sim s' ((emitRaw s .wExportStart).foldl (scanStep bl dropped) c) := by
@@ -164,9 +175,9 @@ theorem sim_ffReturned (s : St) (c : Scan) (dropped fid : Nat) (pre : List Nat) 
     · exact ⟨h1, h2, h3, h4, h5, h6, h7, h8, h9, h10, h11, h12⟩
     · exact ⟨h1, h2, h3, h4, h5, h6, h7, h8, h9, h10, fun _ => hsd, fun _ => hg.2⟩
 
-theorem sim_exportEnd (s s' : St) (c : Scan) (bl : Bool) (dropped : Nat) (h : Sim s c)
-    (hs : step s .exportEnd = some s') :
-    Sim s' ((emitRaw s .exportEnd).foldl (scanStep bl dropped) c) := by
+theorem sim_exportEnd (s s' : St) (ok : Bool) (c : Scan) (bl : Bool) (dropped : Nat) (h : Sim s c)
+    (hs : step s (.exportEnd ok) = some s') :
+    Sim s' ((emitRaw s (.exportEnd ok)).foldl (scanStep bl dropped) c) := by
   obtain ⟨h1, h2, h3, h4, h5, h6, h7, h8, h9, h10, h11, h12⟩ := h
   simp only [emitRaw, List.foldl_cons, List.foldl_nil, scanStep]
   simp only [step] at hs
@@ -389,6 +400,39 @@ theorem sim_sdReturnOk (s s' : St) (c : Scan) (dropped : Nat) (hC : InvC s) (hD 
     refine ⟨h1, ?_, h3, h4, h5, ?_, h7, h8, h9, h10, h11, h12⟩ <;> simp_all
   · simp at hs
 
+/-- a further Shutdown call: the scanner keeps the `pre` set of the first call -/
+theorem sim_sdCallLate (s s' : St) (cid : Nat) (c : Scan) (bl : Bool) (dropped : Nat)
+    (h : Sim s c) (hs : step s (.sdCallLate cid) = some s') :
+    Sim s' ((emitRaw s (.sdCallLate cid)).foldl (scanStep bl dropped) c) := by
+  obtain ⟨h1, h2, h3, h4, h5, h6, h7, h8, h9, h10, h11, h12⟩ := h
+  simp only [step] at hs
+  split at hs
+  · simp at hs
+  · rename_i hg
+    simp at hs; subst hs
+    have hc : c.sdCalled = true := h4.mpr (fun e => hg (Or.inl e))
+    simp only [emitRaw, List.foldl_cons, List.foldl_nil, scanStep, hc, if_true]
+    exact ⟨h1, h2, h3, h4, h5, h6, h7, h8, h9, h10, h11, h12⟩
+
+/-- a further Shutdown call returns nil: only after the winner's once-function returned, i.e. after the worker
+exited and the exporter was shut down — the scanner's checks pass as for the first call -/
+theorem sim_sdReturnLate (s s' : St) (cid : Nat) (c : Scan) (dropped : Nat) (hC : InvC s) (hD : InvD s)
+    (hF : InvF s) (h : Sim s c) (hs : step s (.sdReturnLate cid) = some s') (hd : s.droppedIds.length ≤ dropped) :
+    Sim s' ((emitRaw s (.sdReturnLate cid)).foldl (scanStep s.blocking dropped) c) := by
+  obtain ⟨h1, h2, h3, h4, h5, h6, h7, h8, h9, h10, h11, h12⟩ := h
+  simp only [step] at hs
+  split at hs
+  · rename_i hg
+    simp only [Option.some.injEq] at hs; subst hs
+    have hw := hC.shutExited (hC.retSd hg.1)
+    have hin : c.inExport = false := by rw [h2, (hC.exitedClean hw).2.1]; rfl
+    have hdl := delivered_of_covered s.blocking s.sdPre s.exported s.droppedIds dropped (hF.exitedOK hw) hd hD.dropNB
+    rw [← h1, ← h5] at hdl
+    simp only [emitRaw, List.foldl_cons, List.foldl_nil, scanStep, Bool.not_true, Bool.false_eq_true, if_false, hin,
+      hdl, if_true]
+    refine ⟨h1, ?_, h3, h4, h5, ?_, h7, h8, h9, h10, h11, h12⟩ <;> simp_all
+  · simp at hs
+
 /-- one step of the LTS, followed by the scanner on the events it emits, preserves the simulation -/
 theorem sim_step (s s' : St) (l : Lbl) (c : Scan) (dropped : Nat) (hI : Inv s) (hS : InvS s) (h : Sim s c)
     (hs : step s l = some s') (hd : s.droppedIds.length ≤ dropped) :
@@ -396,8 +440,9 @@ theorem sim_step (s s' : St) (l : Lbl) (c : Scan) (dropped : Nat) (hI : Inv s) (
   rw [emit_of_step hs]
   cases l
   case send id => exact sim_send s s' id c _ dropped h hs
+  case endUnsampled id => exact sim_endUnsampled s s' id c _ dropped h hs
   case wExportStart => exact sim_wExportStart s s' c _ dropped hI.c h hs
-  case exportEnd => exact sim_exportEnd s s' c _ dropped h hs
+  case exportEnd ok => exact sim_exportEnd s s' ok c _ dropped h hs
   case ffCall fid => exact sim_ffCall s s' fid c _ dropped h hs
   case ffCheck fid => exact sim_ffCheck s s' fid c dropped hS hI.d h hs hd
   case ffStopWins fid => exact sim_ffStopWins s s' fid c dropped hI.c hI.d h hs hd
@@ -408,6 +453,8 @@ theorem sim_step (s s' : St) (l : Lbl) (c : Scan) (dropped : Nat) (hI : Inv s) (
   case sdCall => exact sim_sdCall s s' c _ dropped h hs
   case sdExporterShutdown => exact sim_sdExporterShutdown s s' c _ dropped hI.c h hs
   case sdReturnOk => exact sim_sdReturnOk s s' c dropped hI.c hI.d hI.f h hs hd
+  case sdCallLate cid => exact sim_sdCallLate s s' cid c _ dropped h hs
+  case sdReturnLate cid => exact sim_sdReturnLate s s' cid c dropped hI.c hI.d hI.f h hs hd
   all_goals exact sim_silent s s' _ c h hs (by simp)
 
 /-- the simulation holds along every history of the model, for every reported counter that covers the dropped ids -/
@@ -469,20 +516,41 @@ theorem scan_sdCalled (bl : Bool) (d : Nat) (h : List Ev) (c : Scan)
       · exact Or.inr (by simp [h2])
     · exact Or.inr (List.mem_cons_of_mem _ h1)
 
-/-- the model never emits `endedUnsampled` (unsampled spans are not modelled) nor `hang` -/
-theorem emit_no_unsampled (s : St) (l : Lbl) : Spec.unsampledIds (emit s l) = [] ∧ Ev.hang ∉ emit s l := by
+/-- the model never emits `hang` -/
+theorem emit_no_hang (s : St) (l : Lbl) : Ev.hang ∉ emit s l := by
   unfold emit
   split
-  · cases l <;> simp only [emitRaw] <;> (repeat' split) <;> simp [Spec.unsampledIds]
-  · simp [Spec.unsampledIds]
+  · cases l <;> simp only [emitRaw] <;> (repeat' split) <;> simp
+  · simp
 
-theorem reachableH_no_unsampled {cap maxB : Nat} {blocking : Bool} {s : St} {h : List Ev}
-    (hr : ReachableH cap maxB blocking s h) : Spec.unsampledIds h = [] ∧ Ev.hang ∉ h := by
+theorem reachableH_no_hang {cap maxB : Nat} {blocking : Bool} {s : St} {h : List Ev}
+    (hr : ReachableH cap maxB blocking s h) : Ev.hang ∉ h := by
   induction hr with
-  | init => simp [Spec.unsampledIds]
+  | init => simp
   | @step s s' h l _ _ ih =>
-    have := emit_no_unsampled s l
-    rw [unsampledIds_append, ih.1, this.1]
-    simp [ih.2, this.2]
+    have := emit_no_hang s l
+    simp [ih, this]
+
+/-- the `endedUnsampled` events of a step are exactly the ids it adds to the ghost `unsampled` -/
+theorem step_unsampled (s s' : St) (l : Lbl) (hs : step s l = some s') :
+    s'.unsampled = (Spec.unsampledIds (emit s l)).reverse ++ s.unsampled := by
+  rw [emit_of_step hs]
+  cases l <;> simp only [step] at hs
+  all_goals (
+    repeat' (split at hs)
+    all_goals (try (simp at hs))
+    all_goals (try subst hs)
+    all_goals (simp only [emitRaw])
+    all_goals (repeat' split)
+    all_goals (simp [Spec.unsampledIds]))
+
+/-- the `endedUnsampled` events of a history of the model are the ghost `unsampled` of the state reached -/
+theorem reachableH_unsampled {cap maxB : Nat} {blocking : Bool} {s : St} {h : List Ev}
+    (hr : ReachableH cap maxB blocking s h) : Spec.unsampledIds h = s.unsampled.reverse := by
+  induction hr with
+  | init => simp [Spec.unsampledIds, init]
+  | @step s s' h l _ hs ih =>
+    rw [unsampledIds_append, ih, step_unsampled s s' l hs]
+    simp
 
 end Otel.C01
